@@ -179,43 +179,69 @@ func runWorkers(bin string, sc scnSpec, sd uint64, budget time.Duration, tmp str
 		wg.Add(1)
 		go func(w int) {
 			defer wg.Done()
-			out := filepath.Join(tmp, fmt.Sprintf("%s-%d.jsonl", sc.Name, w))
-			args := []string{"-test.run", "^TestSim$", "-test.timeout", "0", "-sim.scenario=" + sc.Name, fmt.Sprintf("-sim.seed=%d", sd),
-				fmt.Sprintf("-sim.from=%d", w), fmt.Sprintf("-sim.stride=%d", n), "-sim.budget=" + budget.String(), "-sim.out=" + out, "-sim.params=" + sc.Params}
+			deadline := time.Now().Add(budget)
+			from := uint64(w)
+			var left uint64
 			if sc.Count > 0 {
-				per := sc.Count / uint64(n)
+				left = sc.Count / uint64(n)
 				if uint64(w) < sc.Count%uint64(n) {
-					per++
+					left++
 				}
-				if per == 0 {
+				if left == 0 {
 					return
 				}
-				args = append(args, fmt.Sprintf("-sim.count=%d", per))
 			}
-			if sc.Flavour == "race" {
-				args = append(args, "-sim.parallel")
-			}
-			cmd := exec.Command(bin, args...)
-			cmd.Env = append(os.Environ(), "GODEBUG=asyncpreemptoff=1")
-			if sc.Flavour == "race" {
-				cmd.Env = append(os.Environ(), "GORACE=halt_on_error=0 exitcode=0 log_path="+filepath.Join(tmp, fmt.Sprintf("race-%d", w)))
-			}
-			ob, err := cmd.CombinedOutput()
-			ls, rerr := readLines(out)
-			lines[w] = ls
-			if err != nil {
+			for attempt := 0; ; attempt++ {
+				out := filepath.Join(tmp, fmt.Sprintf("%s-%d-%d.jsonl", sc.Name, w, attempt))
+				rem := time.Until(deadline)
+				if sc.Count == 0 && rem <= 0 {
+					return
+				}
+				args := []string{"-test.run", "^TestSim$", "-test.timeout", "0", "-sim.scenario=" + sc.Name, fmt.Sprintf("-sim.seed=%d", sd),
+					fmt.Sprintf("-sim.from=%d", from), fmt.Sprintf("-sim.stride=%d", n), "-sim.budget=" + rem.String(), "-sim.out=" + out, "-sim.params=" + sc.Params, "-sim.stop=false"}
+				if sc.Count > 0 {
+					args = append(args, fmt.Sprintf("-sim.count=%d", left))
+				}
+				if sc.Flavour == "race" {
+					args = append(args, "-sim.parallel")
+				}
+				cmd := exec.Command(bin, args...)
+				cmd.Env = append(os.Environ(), "GODEBUG=asyncpreemptoff=1")
+				if sc.Flavour == "race" {
+					cmd.Env = append(os.Environ(), "GORACE=halt_on_error=0 exitcode=0 log_path="+filepath.Join(tmp, fmt.Sprintf("race-%d", w)))
+				}
+				ob, err := cmd.CombinedOutput()
+				ls, rerr := readLines(out)
+				lines[w] = append(lines[w], ls...)
+				if err == nil {
+					if rerr != nil {
+						errs[w] = rerr
+					}
+					return
+				}
 				// A worker that died inside library code (panic / fatal error with a
-				// kafka-go frame on the crashing stack) is a finding about the
-				// code under test, not machinery trouble.
-				if crash := libraryCrash(string(ob)); crash != "" {
-					cur, _ := os.ReadFile(out + ".cur")
-					run, _ := strconv.ParseUint(strings.TrimSpace(string(cur)), 10, 64)
-					lines[w] = append(lines[w], RunLine{Run: run, Ended: "crash", Violations: []Violation{{Property: "CRASH", Rule: "process-crash", Msg: crash}}})
+				// kafka-go frame on the crashing stack) is a finding about the code
+				// under test, not machinery trouble: record it and carry on with the
+				// next run index in a fresh process.
+				crash := libraryCrash(string(ob))
+				if crash == "" {
+					errs[w] = fmt.Errorf("worker %d: %v\n%s", w, err, tail(string(ob), 4000))
 					return
 				}
-				errs[w] = fmt.Errorf("worker %d: %v\n%s", w, err, tail(string(ob), 4000))
-			} else if rerr != nil {
-				errs[w] = rerr
+				cur, _ := os.ReadFile(out + ".cur")
+				run, _ := strconv.ParseUint(strings.TrimSpace(string(cur)), 10, 64)
+				lines[w] = append(lines[w], RunLine{Run: run, Ended: "crash", Violations: []Violation{{Property: "CRASH", Rule: "process-crash", Msg: crash}}})
+				if sc.Count > 0 {
+					done := uint64(len(ls)) + 1
+					if done >= left {
+						return
+					}
+					left -= done
+				}
+				from = run + uint64(n)
+				if attempt > 200 {
+					return
+				}
 			}
 		}(w)
 	}
@@ -681,6 +707,15 @@ func cmdCheck(prop, tier string) int {
 					rf.Minimised = false
 				}
 			}
+		}
+		// the minimised, replayed case may turn out to be a listed finding
+		if kf := matchFinding(findings, Violation{Property: rf.Property, Rule: rf.Rule, Msg: rf.Message}); kf != nil {
+			key := kf.Property + kf.Rule + kf.Match
+			if !knownPrinted[key] {
+				knownPrinted[key] = true
+				fmt.Printf("KNOWN-FINDING: property=%s %s\n", kf.Property, kf.What)
+			}
+			continue
 		}
 		rf.TapeLen = map[string]int{}
 		for k, v := range rf.Tape {
